@@ -56,7 +56,7 @@ theorem expectSyscallCallAndArgs_inert : Inert (expectSyscallCallAndArgs) := by 
 
 theorem dispatchMacroCallOrStat_inert (cfg : Cfg) (ty : TokenType) (b : Bool) (hty : ty ≠ .EOF) :
     Inert (dispatchMacroCallOrStat cfg ty b) := by
-  unfold dispatchMacroCallOrStat maybeEmitMacroSepBeforeKw maybeExpectMacroCallArgsOrLabel expectMacroStrCallArgs
+  unfold dispatchMacroCallOrStat macroCallOrStatPreload maybeEmitMacroSepBeforeKw maybeExpectMacroCallArgsOrLabel expectMacroStrCallArgs
     expectEvalCallArgs expectScanOrSubstrCallArgs expectBuiltinMacroCallArgs expectBuiltinMacroCallOneArgMasking
     expectBuiltinMacroCallNamedArgs expectSysfuncMacroCallArgs expectMacroUntilWhileStatArgs expectMacroLetStat
     expectMacroNameThenOpts expectSyscallCallAndArgs
